@@ -76,6 +76,9 @@ type EvoScenario struct {
 	// BySpeciesFactor > 0 (constructor ReadPopulation): the file is the dump by species (WriteBySpecies, the format the examples
 	// store) of a population that was spawned and speciated under a threshold this many times the one it is read under
 	BySpeciesFactor float64
+	// IsolatedNeuron (constructor ReadPopulation): every genome in the file lists one more hidden neuron, which no gene refers
+	// to (a hand-edited file; NewPopulationRandom builds such genomes too)
+	IsolatedNeuron bool
 	// AbortAt > 0: the turnover of that generation is first attempted under a context that is cancelled while the species
 	// reproduce (the attempt fails, its offspring are dropped), and then made again; a retry that fails ends the scenario quietly
 	// (what an aborted turnover leaves behind is no population any property speaks about - unless everything survives)
@@ -125,6 +128,9 @@ func (sc *EvoScenario) brief() map[string]interface{} {
 	}
 	if sc.RepeatIds > 0 {
 		m["genome_ids_in_the_file_taken_modulo"] = sc.RepeatIds
+	}
+	if sc.IsolatedNeuron {
+		m["every_genome_in_the_file_lists_a_hidden_neuron_no_gene_refers_to"] = true
 	}
 	if sc.BySpeciesFactor > 0 {
 		m["read_from_a_dump_by_species_made_under_threshold_times"] = sc.BySpeciesFactor
@@ -210,6 +216,23 @@ func (sc *EvoScenario) construct() (*genetics.Population, error) {
 		}
 		if err != nil {
 			return nil, err
+		}
+		if sc.IsolatedNeuron {
+			var out []string
+			last, inNodes := 0, false
+			for _, line := range strings.Split(buf.String(), "\n") {
+				f := strings.Fields(line)
+				if len(f) > 1 && f[0] == "node" {
+					last, _ = strconv.Atoi(f[1])
+					inNodes = true
+				} else if inNodes {
+					out = append(out, fmt.Sprintf("node %d 0 0 0 TanhActivation", last+1))
+					inNodes = false
+				}
+				out = append(out, line)
+			}
+			buf.Reset()
+			buf.WriteString(strings.Join(out, "\n"))
 		}
 		if sc.RepeatIds > 0 {
 			text := genomeIdLine.ReplaceAllStringFunc(buf.String(), func(m string) string {
